@@ -5,8 +5,10 @@ Copies a confirmed independently-written change from /tmp/seeded-out/<ID>/<name>
 import json, os, re, shutil, sys
 pid, name = sys.argv[1], sys.argv[2]
 missed = sys.argv[4] if len(sys.argv) > 4 and sys.argv[3] == "--missed-first" else None
-src = "/tmp/seeded-out/%s/%s" % (pid, name)
+src = "%s/%s/%s" % (os.environ.get("SEEDROOT", "/tmp/seeded-out"), pid, name)
 dst = "/verif/seeded/%s-%s" % (pid, name)
+if os.path.exists(dst) and os.environ.get("SEEDROOT"):
+  dst += "-r2"
 log = open(os.path.join(src, "confirm.log")).read()
 sec = dict(re.findall(r"== ([a-z ]+)\n(.*?)(?=\n== |\Z)", log, flags=re.S))
 ex = {k: int(re.findall(r"exit (\d+)", v)[-1]) for k, v in sec.items() if re.findall(r"exit (\d+)", v)}
